@@ -178,6 +178,7 @@ def resetProposals (c : Chain) : Chain := { c with props := c.props.map PropSt.r
 
 structure Saved where
   chainId : Nat
+  beta : Rat
   iteration : Nat
   current : St
   proposed : Option (List Val)
@@ -189,7 +190,7 @@ deriving DecidableEq, Inhabited
 def save (c : Chain) : Option Saved :=
   match c.current, c.iteration with
   | some cur, _ + 1 =>
-    some { chainId := c.chainId, iteration := c.iteration, current := cur
+    some { chainId := c.chainId, beta := c.beta, iteration := c.iteration, current := cur
            proposed := c.proposed, hasblobs := c.hasblobs
            props := c.props.map PropSt.save }
   | _, _ => none
@@ -202,6 +203,7 @@ def loadProps : List PropSt → List SavedProp → List PropSt
 def load (c : Chain) (s : Saved) : Chain :=
   let c := c.clear
   { c with chainId := s.chainId
+           beta := s.beta
            iteration := s.iteration
            lastclear := s.iteration
            start := some s.current
